@@ -8,7 +8,7 @@ accepted before answering, delayed ready, error answers on a marked range), neve
 from dsim import prng
 from dsim.kernel import Bench, wrap_top
 from dsim.axil_agents import AXILMaster, AXILSlave
-from dsim.wb_agents import WBMaster, WBSlave, PortRecorder
+from dsim.wb_agents import WBMaster, WBSlave, PortRecorder, CombSlave
 
 PROPERTY = "C09"
 LEVEL = "exploration"
@@ -95,6 +95,14 @@ def generate(family, rng, tier, wb_err=False, up_pipelined=False, lite_pipelined
     if family == "adapter":
         from props import c09_adapter
         return c09_adapter.generate(rng, tier)
+    scn = _generate(family, rng, tier, wb_err, up_pipelined, lite_pipelined)
+    if family in ("axil2wb", "chain", "axi2wb", "ahb2wb") and rng.random() < 0.3:
+        # the Wishbone side is a zero-wait-state memory built from real logic (ack in the cycle of the request, literal wait cycles)
+        scn["comb_slave"] = prng.pattern(rng, 400, rng.choice([1.0, 1.0, 0.8, 0.5]))
+    return scn
+
+
+def _generate(family, rng, tier, wb_err=False, up_pipelined=False, lite_pipelined=False):
     n = rng.randint(20, 60)
     p = {"family": family}
     scn = {"family": family, "params": p, "max_out": rng.choice([1, 2, 4]),
@@ -342,7 +350,10 @@ def run1(scn):
         def init_word(a, shift=shift):
             w_ = a >> shift
             return sum(hb(w_ * 4 + i) << (8 * i) for i in range(4))
-        sa = bench.add(WBSlave(wbs, scn["lat"], name="s", init=init_word, errs=()))
+        if scn.get("comb_slave") and not scn.get("wb_errs"):
+            sa = bench.add(CombSlave(top, wbs, 12, init_word, scn["comb_slave"], shift=shift))
+        else:
+            sa = bench.add(WBSlave(wbs, scn["lat"], name="s", init=init_word, errs=()))
         if scn.get("wb_errs"):
             sa.err_adr = set(scn["wb_errs"])
         prev = [None]
